@@ -94,8 +94,8 @@ META["C15"] = dict(
 META["C19"] = dict(
     design_ref="DESIGN.md section 5, C19",
     technique="Coq proofs: decimal print/parse round-trip (induction on digits), marker-search lemmas (bytes of durations/numbers are below the markers' lead byte) giving read_progress(render_progress d) = counts for all data, banner = verdict by construction of the render function; byte-exact differential of Render() in both colour modes and field-exact comparison of Log() against the extracted model, plus the Result.Summary()/Progress() glue",
-    text="Theorems C19_decimal_roundtrip, C19_progress_roundtrip, C19_banner, C19_log_counts: for all counts below 2^64 and all durations/periods/statistics the progress line, read back, states exactly (successful, dropped when non-zero, failed); every count is printed by an exactly invertible decimal printer; the summary banner is the verdict flag; the structured group carries the same counts. "
-         "That the model's bytes are the templates' bytes (both colour modes), and that rendering never panics (zero iterations, zero and negative durations, odd error texts), is established by exact comparison on generated data. The percentage's closeness to the exact share is a binary64 rounding fact and is not proved.",
+    text="Theorems C19_decimal_roundtrip, C19_progress_roundtrip, C19_banner, C19_log_counts, C19_percent_close: for all counts below 2^64 and all durations/periods/statistics the progress line, read back, states exactly (successful, dropped when non-zero, failed); every count is printed by an exactly invertible decimal printer; the summary banner is the verdict flag; the structured group carries the same counts. "
+         "That the model's bytes are the templates' bytes (both colour modes), and that rendering never panics (zero iterations, zero and negative durations, odd error texts), is established by exact comparison on generated data. C19_percent_close: the printed percentage (hundredths q) satisfies |q/100 - 100*val/total| <= 0.005 + 10001/2^53 for all 0 <= val <= total < 2^46 (proved from Flocq's correct rounding of the one division and the half-even decimal conversion).",
     note="Trusted: Coq kernel (+ Flocq-carried axioms where rate/percent floats appear); text/template + fmt behaviour re-implemented and compared; extraction + driver; harness. The result-summary counterpart of the round-trip is checked by comparison, not proved.",
 )
 
